@@ -393,6 +393,8 @@ where
 
                 loop {
                     if let Some((current_origin, current_fact)) = self.current_facts.next() {
+                        #[cfg(feature = "verif-hooks")]
+                        crate::verif_hooks::tick();
                         // create a new MatchedVariables in which we fix variables we could unify
                         // from our first predicate and the current fact
                         let mut vars = self.variables.clone();
@@ -755,7 +757,10 @@ impl std::default::Default for RunLimits {
 
 #[derive(Clone, Debug, Default)]
 pub struct FactSet {
+    #[cfg(not(feature = "verif-hooks"))]
     pub(crate) inner: HashMap<Origin, HashSet<Fact>>,
+    #[cfg(feature = "verif-hooks")]
+    pub(crate) inner: crate::verif_hooks::OrdMap<Origin, crate::verif_hooks::OrdSet<Fact>>,
 }
 
 impl FactSet {
@@ -835,7 +840,10 @@ impl IntoIterator for FactSet {
 
 #[derive(Clone, Debug, Default)]
 pub struct RuleSet {
+    #[cfg(not(feature = "verif-hooks"))]
     pub inner: HashMap<TrustedOrigins, Vec<(usize, Rule)>>,
+    #[cfg(feature = "verif-hooks")]
+    pub inner: crate::verif_hooks::OrdMap<TrustedOrigins, Vec<(usize, Rule)>>,
 }
 
 impl RuleSet {
